@@ -17,7 +17,7 @@ import (
 func init() {
 	Register("C14", &Info{
 		Run:   runC14,
-		Quick: 10000, Thor: 400000,
+		Quick: 10000, Thor: 1500000,
 		Rule: "a world = a history of 1-2 connections of one fingerprint (HelloGolang, ticket/PSK-capable parrots, any parrot by stratum) to a server presenting one fixture chain (valid, wrong name, untrusted root, expired, not yet valid, short-lived) at TLS 1.2 or 1.3, each connection with its own Config (ServerName incl. IPv4/IPv6 literals, InsecureServerNameToVerify in {unset, *, matching, other}, InsecureSkipTimeVerify, InsecureSkipVerify) and its own client clock (Config.Time offset; jumps of days/weeks/decades, forwards or backwards, between the connections) over a shared session cache; ECH dimension (TLS 1.3, ECH-capable fingerprints): no ECH, an accepting server (verification against the configured name as usual) or a rejecting server (the chain must verify against the config's public name: then and only then the client returns ECHRejectionError), with a certificate valid for every name or for the public name only; oracle: independent truth table - a handshake succeeds iff InsecureSkipVerify or (chain trusted and validity period ok at the client's time unless InsecureSkipTimeVerify and leaf matches the verification name unless it is *); a second (possibly resumed) connection may never succeed where a fresh verification under its own Config and clock would fail; non-trivial = verification actually ran (InsecureSkipVerify unset); distinct = (fingerprint, cert, both configs, clock offsets, version)",
 		Assumptions: []string{"trust/validity/name ground truth comes from how the fixtures were generated (tools/genfix), not from x509.Verify",
 			"ECH strata (accepted / rejected verifies against the public name) are part of the C15 scenario"},
